@@ -34,6 +34,10 @@ func (p *Prover) Init(curve *math.Curve, msgLen int, thresholdPK []byte, parties
 		return err
 	}
 
+	if len(tpk.PublicKeys) < len(parties) {
+		return fmt.Errorf("%d public keys for %d parties", len(tpk.PublicKeys), len(parties))
+	}
+
 	p.publicKeysOfParties = make(map[uint16]PK)
 
 	for i, party := range parties {
@@ -42,11 +46,19 @@ func (p *Prover) Init(curve *math.Curve, msgLen int, thresholdPK []byte, parties
 			return err
 		}
 
+		if len(pk.Y) != p.pp.n {
+			return fmt.Errorf("public key of party %d has %d components instead of %d", party, len(pk.Y), p.pp.n)
+		}
+
 		p.publicKeysOfParties[party] = pk
 	}
 
 	if err := p.tpk.fromBytes(curve, tpk.TPK); err != nil {
 		return err
+	}
+
+	if len(p.tpk.Y) != p.pp.n {
+		return fmt.Errorf("threshold public key has %d components instead of %d", len(p.tpk.Y), p.pp.n)
 	}
 
 	return nil
@@ -78,7 +90,12 @@ func (p *Prover) UnBlind(party uint16, blindedSig []byte, secret *UnblindingSecr
 		return SignatureWitness{}, err
 	}
 
-	hPrime, err := UnBlind(&p.pp, p.publicKeysOfParties[party], &σ, secret.h, secret.msg, secret.z)
+	pk, exists := p.publicKeysOfParties[party]
+	if !exists {
+		return SignatureWitness{}, fmt.Errorf("party %d is unknown", party)
+	}
+
+	hPrime, err := UnBlind(&p.pp, pk, &σ, secret.h, secret.msg, secret.z)
 	if err != nil {
 		return SignatureWitness{}, err
 	}
